@@ -6,7 +6,10 @@ import (
 	"bytes"
 	"fmt"
 	"math"
+	"runtime"
+	"strconv"
 	"strings"
+	"sync"
 
 	"github.com/bokysan/socketace/v2/internal/util/enc"
 )
@@ -15,8 +18,17 @@ import (
 //
 // op:      <codec letter> enc <hex>      result: hex(Encode(x))
 //          <codec letter> dec <hex>      result: hex(Decode(x)) or "err"
+//          <codec letter> pair <hexA> <hexB>            several inputs through the same encoder value, every
+//          <codec letter> seq <hex> <hex>...            result RETAINED (not copied) while the later calls run;
+//          <codec letter> par <G> <iters> <hex>...      par: G goroutines (goroutine g works on input g mod N)
+//                                                       result: E <retained encodings> D <retained decodings>
+//                                                       as they read AFTER all calls
 // monitor (enc ops): Decode(Encode x) == x; for the text codecs (all but Raw) every output byte is
 // DNS-safe (> 32, != 127, not '.', not '\\'); len(output) <= ceil(Ratio()*len(x)) + 8.
+// monitor (pair/seq/par): results are independent values - a retained encoding/decoding does not change
+// under later calls (or calls of other goroutines), every retained encoding still decodes to its own
+// input, the caller's input slices are unchanged, and (all but Raw, the identity) no result shares memory
+// with an input, with another result or with state the encoder uses later.
 
 type codecComp struct{}
 
@@ -69,16 +81,23 @@ func lenClass(n int) string {
 
 func (codecComp) Exec(op string) (result, monitor, class string, nontrivial bool) {
 	t := strings.Fields(op)
-	if len(t) != 3 || len(t[0]) != 1 {
-		return "bad-op", "", "bad-op", false
-	}
-	data, err := unhex(t[2])
-	if err != nil {
+	if len(t) < 3 || len(t[0]) != 1 {
 		return "bad-op", "", "bad-op", false
 	}
 	e, err := enc.FromCode(t[0][0])
 	if err != nil {
 		return "bad-codec", "", "bad-codec", false
+	}
+	switch t[1] {
+	case "pair", "seq", "par":
+		return c08Multi(e, strings.ToUpper(t[0]), t[1], t[2:])
+	}
+	if len(t) != 3 {
+		return "bad-op", "", "bad-op", false
+	}
+	data, err := unhex(t[2])
+	if err != nil {
+		return "bad-op", "", "bad-op", false
 	}
 	letter := strings.ToUpper(t[0])
 	switch t[1] {
@@ -117,6 +136,259 @@ func (codecComp) Exec(op string) (result, monitor, class string, nontrivial bool
 		return hexs(out), "", letter + ":dec:ok:" + lenClass(len(out)), len(out) > 0
 	}
 	return "bad-op", "", "bad-op", false
+}
+
+// ---- independence of results (pair / seq / par) ----
+
+func c08Copies(xs [][]byte) [][]byte {
+	out := make([][]byte, len(xs))
+	for i, x := range xs {
+		out[i] = append(make([]byte, 0, len(x)), x...)
+	}
+	return out
+}
+
+// c08Scribble overwrites a slice up to its capacity (what a caller that owns the slice is entitled to do)
+func c08Scribble(x []byte) {
+	x = x[:cap(x)]
+	for i := range x {
+		x[i] ^= 0xa5
+	}
+}
+
+func c08DecTok(b []byte, err error) string {
+	if err != nil {
+		return "err"
+	}
+	return hexs(b)
+}
+
+type c08Reasons struct {
+	list []string
+	seen map[string]bool
+}
+
+func (r *c08Reasons) add(s string) {
+	if r.seen == nil {
+		r.seen = map[string]bool{}
+	}
+	if !r.seen[s] {
+		r.seen[s] = true
+		r.list = append(r.list, s)
+	}
+}
+
+func c08Multi(e enc.Encoder, letter, kind string, args []string) (result, monitor, class string, nontrivial bool) {
+	G, iters := 0, 0
+	if kind == "par" {
+		if len(args) < 3 {
+			return "bad-op", "", "bad-op", false
+		}
+		var e1, e2 error
+		G, e1 = strconv.Atoi(args[0])
+		iters, e2 = strconv.Atoi(args[1])
+		if e1 != nil || e2 != nil || G < 0 || iters < 0 || G > 4096 || iters > 1<<20 {
+			return "bad-op", "", "bad-op", false
+		}
+		args = args[2:]
+	}
+	if kind == "pair" && len(args) != 2 {
+		return "bad-op", "", "bad-op", false
+	}
+	orig := make([][]byte, len(args))
+	for i, a := range args {
+		b, err := unhex(a)
+		if err != nil {
+			return "bad-op", "", "bad-op", false
+		}
+		orig[i] = b
+		if len(b) > 0 {
+			nontrivial = true
+		}
+	}
+	n := len(orig)
+	class = fmt.Sprintf("%s:%s:n%d", letter, kind, c08min(n, 9))
+	raw := e.Code() == 'R'   // the identity: a result IS its argument (by design); only the retention checks apply
+	lossy := e.Code() == 'Y' // Base192 does not round-trip (open finding C08-F1, exhibited by the enc ops)
+	var why c08Reasons
+
+	work := c08Copies(orig) // the slices handed to the codec
+	encs := make([][]byte, n)
+	encSnap := make([][]byte, n)
+	decs := make([][]byte, n)
+	decErr := make([]error, n)
+	decSnap := make([][]byte, n)
+	changedEarly := make([]bool, n)
+
+	// reference: each input alone, every result copied at once
+	refEnc := make([][]byte, n)
+	refDec := make([][]byte, n)
+	refErr := make([]error, n)
+	for i := range orig {
+		refEnc[i] = append([]byte{}, e.Encode(append([]byte{}, orig[i]...))...)
+		d, derr := e.Decode(append([]byte{}, refEnc[i]...))
+		refDec[i], refErr[i] = append([]byte{}, d...), derr
+	}
+
+	if kind != "par" {
+		for i := range work {
+			encs[i] = e.Encode(work[i])
+			encSnap[i] = append([]byte{}, encs[i]...)
+		}
+		for i := range work {
+			if !bytes.Equal(encs[i], encSnap[i]) {
+				changedEarly[i] = true
+				why.add(fmt.Sprintf("independence: the result of Encode(input %d) changed while later inputs were encoded", i))
+			}
+		}
+		for i := range work {
+			decs[i], decErr[i] = e.Decode(encs[i])
+			decSnap[i] = append([]byte{}, decs[i]...)
+		}
+	} else {
+		for i := range work {
+			encSnap[i], decSnap[i], decErr[i] = refEnc[i], refDec[i], refErr[i]
+		}
+		type obs struct {
+			enc, dec []byte
+			err      error
+			bad      string
+		}
+		res := make([]obs, G)
+		start := make(chan struct{})
+		var wg sync.WaitGroup
+		for g := 0; g < G; g++ {
+			wg.Add(1)
+			go func(g int) {
+				defer wg.Done()
+				defer func() {
+					if p := recover(); p != nil {
+						res[g].bad = fmt.Sprintf("concurrent: panic in goroutine working on input %d: %v", g%n, p)
+					}
+				}()
+				i := g % n
+				in := append([]byte{}, orig[i]...)
+				<-start
+				for k := 0; k < iters; k++ {
+					out := e.Encode(in)
+					runtime.Gosched()
+					back, derr := e.Decode(out)
+					runtime.Gosched()
+					if res[g].bad == "" {
+						switch {
+						case !bytes.Equal(out, encSnap[i]):
+							res[g].bad = fmt.Sprintf("concurrent: Encode(input %d) read back differently from the same call made alone (iteration %d)", i, k)
+						case (derr != nil) != (decErr[i] != nil) || !bytes.Equal(back, decSnap[i]):
+							res[g].bad = fmt.Sprintf("concurrent: Decode(Encode(input %d)) differs from the same calls made alone (iteration %d)", i, k)
+						case !bytes.Equal(in, orig[i]):
+							res[g].bad = fmt.Sprintf("concurrent: the input slice %d was modified", i)
+						}
+					}
+					res[g].enc, res[g].dec, res[g].err = out, back, derr
+				}
+			}(g)
+		}
+		close(start)
+		wg.Wait()
+		for i := range work {
+			// what is printed: the last results of the first goroutine working on input i (retained, not copied);
+			// G < n or iters == 0 leaves the reference
+			encs[i], decs[i] = encSnap[i], decSnap[i]
+			if i < G && iters > 0 && res[i].bad == "" {
+				encs[i], decs[i], decErr[i] = res[i].enc, res[i].dec, res[i].err
+			}
+		}
+		nbad, first := 0, map[int]bool{}
+		for g := range res {
+			if res[g].bad != "" {
+				nbad++
+				if !first[g%n] && len(first) < 3 { // one witness per input, three at most
+					first[g%n] = true
+					why.add(res[g].bad)
+				}
+			}
+		}
+		if nbad > 0 {
+			why.add(fmt.Sprintf("concurrent: %d of %d goroutines saw a wrong result", nbad, G))
+		}
+	}
+
+	// the line compared with the model: what the retained results hold now
+	var sb strings.Builder
+	sb.WriteString("E")
+	for i := range encs {
+		sb.WriteString(" " + hexs(encs[i]))
+	}
+	sb.WriteString(" D")
+	for i := range decs {
+		sb.WriteString(" " + c08DecTok(decs[i], decErr[i]))
+	}
+	result = sb.String()
+
+	for i := range work {
+		if !bytes.Equal(encs[i], encSnap[i]) && !changedEarly[i] {
+			why.add(fmt.Sprintf("independence: the result of Encode(input %d) changed during later calls", i))
+		}
+		if !bytes.Equal(encSnap[i], refEnc[i]) {
+			why.add(fmt.Sprintf("state: Encode(input %d) made after other calls differs from the same call made alone", i))
+		}
+		if decErr[i] == nil && !bytes.Equal(decs[i], decSnap[i]) {
+			why.add(fmt.Sprintf("independence: the result of Decode(encoding %d) changed during later calls", i))
+		}
+		if !lossy {
+			if decErr[i] != nil {
+				why.add(fmt.Sprintf("roundtrip: the retained encoding of input %d no longer decodes", i))
+			} else if !bytes.Equal(decs[i], orig[i]) {
+				why.add(fmt.Sprintf("roundtrip: the retained encoding of input %d decodes to other bytes (%d for %d)", i, len(decs[i]), len(orig[i])))
+			}
+		}
+		if !bytes.Equal(work[i], orig[i]) {
+			why.add(fmt.Sprintf("input: the caller's slice %d was modified by Encode/Decode", i))
+		}
+	}
+
+	// aliasing probes: the caller overwrites what it owns; nothing else may move (each probe is judged
+	// against the state just before it, so that an earlier finding is not reported again under another name)
+	if !raw && kind != "par" {
+		probe := func(what string, skipEnc, skipDec int, scribble func()) {
+			encNow, decNow := c08Copies(encs), c08Copies(decs)
+			scribble()
+			for j := range encs {
+				if j != skipEnc && !bytes.Equal(encs[j], encNow[j]) {
+					why.add("aliasing: an Encode result shares memory with " + what)
+				}
+				if j != skipDec && !bytes.Equal(decs[j], decNow[j]) {
+					why.add("aliasing: a Decode result shares memory with " + what)
+				}
+			}
+		}
+		probe("the caller's input slice", -1, -1, func() {
+			for i := range work {
+				c08Scribble(work[i])
+			}
+		})
+		for i := range encs {
+			probe("another Encode result (or its spare capacity)", i, -1, func() { c08Scribble(encs[i]) })
+		}
+		for i := range decs {
+			probe("another Decode result (or its spare capacity)", -1, i, func() { c08Scribble(decs[i]) })
+		}
+		// ... and the encoder itself still answers as it did before anything was retained
+		for i := range orig {
+			again := e.Encode(append([]byte{}, orig[i]...))
+			if !bytes.Equal(again, refEnc[i]) {
+				why.add("aliasing: Encode answers differently after the caller overwrote earlier results (they share memory with the encoder's state)")
+				break
+			}
+			back, derr := e.Decode(append([]byte{}, refEnc[i]...))
+			if (derr != nil) != (refErr[i] != nil) || (derr == nil && !bytes.Equal(back, refDec[i])) {
+				why.add("aliasing: Decode answers differently after the caller overwrote earlier results (they share memory with the decoder's state)")
+				break
+			}
+		}
+	}
+	monitor = strings.Join(why.list, "; ")
+	return
 }
 
 func (codecComp) Gen(r *Rand, tier string, emit func(op string)) {
@@ -272,6 +544,76 @@ func (codecComp) Gen(r *Rand, tier string, emit func(op string)) {
 					decOp(c, append([]byte{a[1%len(a)], a[2%len(a)]}, bytes.Repeat([]byte{ch}, n)...))
 				}
 			}
+		}
+	}
+
+	// (iv) independence of results: several inputs through the same encoder value, results retained
+	multi := func(c byte, kind string, ins [][]byte) {
+		var sb strings.Builder
+		fmt.Fprintf(&sb, "%c %s", c, kind)
+		for _, x := range ins {
+			sb.WriteString(" " + hexs(x))
+		}
+		emit(sb.String())
+	}
+	pairLens := []int{0, 1, 2, 3, 4, 5, 6, 7, 8, 13, 14, 15, 16, 31, 64, 183, 255, 600}
+	if thorough {
+		pairLens = append(pairLens, 9, 10, 11, 12, 17, 32, 63, 65, 127, 128, 256, 511, 1024, 4096)
+	}
+	for _, c := range codecLetters {
+		for _, la := range pairLens {
+			for _, lb := range pairLens {
+				a, b := content(r.Intn(kinds), la), content(5, lb)
+				if la == lb && la > 0 && bytes.Equal(a, b) {
+					b[r.Intn(lb)] ^= 0x40
+				}
+				multi(c, "pair", [][]byte{a, b})
+			}
+		}
+		nseq := 40
+		if thorough {
+			nseq = 400
+		}
+		for i := 0; i < nseq; i++ {
+			k := 3 + r.Intn(6)
+			ins := make([][]byte, k)
+			same := r.Intn(64) // equal lengths: a recycled buffer yields a well-formed but foreign encoding
+			for j := range ins {
+				switch i % 4 {
+				case 0:
+					ins[j] = content(5, same)
+				case 1: // decreasing lengths: a shorter later result leaves the tail of the earlier one
+					ins[j] = content(5, (k-j)*7+r.Intn(7))
+				default:
+					ins[j] = content(r.Intn(kinds), r.Intn(65))
+				}
+			}
+			if i%5 == 4 { // the same input again later
+				ins[k-1] = append([]byte{}, ins[0]...)
+			}
+			multi(c, "seq", ins)
+		}
+		npar := 6
+		if thorough {
+			npar = 40
+		}
+		for i := 0; i < npar; i++ {
+			k := 2 + r.Intn(7)
+			ins := make([][]byte, k)
+			same := 1 + r.Intn(200)
+			for j := range ins {
+				if i%2 == 0 {
+					ins[j] = content(5, same)
+				} else {
+					ins[j] = content(5, r.Intn(300))
+				}
+			}
+			var sb strings.Builder
+			fmt.Fprintf(&sb, "%c par %d %d", c, 64, 32)
+			for _, x := range ins {
+				sb.WriteString(" " + hexs(x))
+			}
+			emit(sb.String())
 		}
 	}
 }
